@@ -385,6 +385,30 @@ def run(ctx):
                  b'{"p":[{"x":1},{"y":2},{"x":3,"y":4},{}],"u":7}'):
         for fl in (0, 8, 8 | 16, 31, 1):
             add('array-overflow', 'Fix', fl, body)
+    # tables with deprecated union / union vector fields before, between and after the live ones: every live union and union vector driven,
+    # type-first / value-first / split, alone and together (the union slots of the parser's user frame count live unions only)
+    dep_hand = {
+        'DepFirst': [b'{"v_type":["Leaf","Pt"],"v":[{"n":1},{"x":1,"y":2}]}', b'{"v":[{"n":1},"s"],"v_type":["Leaf","Str"]}', b'{"u_type":"Leaf","u":{"n":1}}',
+                     b'{"u":{"n":1},"u_type":"Leaf","v":[{"v":[1]}],"v_type":["Other"],"n":5}', b'{"old_type":"Leaf","old":{"n":1},"v_type":["Pt"],"v":[{"x":3}]}', b'{"old":{"n":1}}'],
+        'DepMid': [b'{"w_type":"Str","w":"x"}', b'{"w":{"n":1},"w_type":"Leaf"}', b'{"v_type":["Leaf"],"v":[{}],"w_type":"Pt","w":{"x":1},"u_type":"Other","u":{"f":2}}',
+                   b'{"u":{"n":1},"v":[{"n":2}],"w":{"n":3},"w_type":"Leaf","v_type":["Leaf"],"u_type":"Leaf","s":"t"}', b'{"oldv_type":["Leaf"],"oldv":[{}],"w_type":"Leaf","w":{}}'],
+        'DepLast': [b'{"w_type":"Leaf","w":{"n":1}}', b'{"v_type":["Str","Str"],"v":["a","b"],"w":"c","w_type":"Str"}', b'{"old_type":["Leaf"],"old":[{}],"u_type":"Pt","u":{"y":1}}'],
+        'DepOnly': [b'{"n":1,"s":"x"}', b'{"old_type":"Leaf","old":{"n":1},"n":2}', b'{"old":{"n":1}}', b'{}'],
+    }
+    for root_, texts_ in dep_hand.items():
+        for text in texts_:
+            for fl in (0, 1, 2, 4):
+                add('deprecated-union', root_, fl, text)
+    for k in range(120 if T else 36):
+        root_ = ['DepFirst', 'DepMid', 'DepLast', 'DepOnly'][k % 4]
+        gg = U.Gen(rng, max_depth=2)
+        v = gg.table(root_, 0, p_present=rng.choice([0.5, 1.0]))
+        st = U.Style(rng, strict=(k % 2 == 0)); st.union_order = ['type_first', 'value_first', 'split'][(k // 4) % 3]
+        text = U.render_root(root_, v, st)
+        add('deprecated-union', root_, rng.choice([0, 0, 1, 2, 4, 31]), text)
+        if k % 3 == 0:
+            for cut in sorted(set(rng.randint(1, len(text)) for _ in range(8))): add('deprecated-union-truncation', root_, rng.choice([0, 1]), text[:cut])
+            for _ in range(4): add('deprecated-union-mutation', root_, rng.choice(allflags), U.mutate(rng, text))
     # EVERY generated entry point: <T>_parse_json_as_root (above) and the schema-level <basename>_parse_json (root name `Root@schema`; for the
     # struct-root schema `SPt` / `SPt@schema` in the second executable).  Nesting of known fields through each of them.
     for d in (1, 50, 99, 100, 101, 127, 128, 1000, 20000):
@@ -468,7 +492,7 @@ def run(ctx):
     # the same parses on a fresh builder whose allocator moves every block it grows (flatcc_builder_custom_init): a pointer into a
     # builder stack kept across a growing operation is then a heap-use-after-free for ASan, and the result must not depend on the allocator
     moving = [i for i, c in enumerate(cases) if c[0] in ('valid', 'unknown-fields', 'hand', 'nested-struct-object', 'union-tree', 'required-subsets', 'union-tree-truncation',
-                                                           'union-tree-mutation', 'all-flags', 'int-limits-in', 'int-limits-out', 'array-overflow', 'float-terminated', 'array-underfill')]
+                                                           'union-tree-mutation', 'all-flags', 'int-limits-in', 'int-limits-out', 'array-overflow', 'float-terminated', 'array-underfill', 'deprecated-union', 'deprecated-union-truncation', 'deprecated-union-mutation')]
     rest = [i for i, c in enumerate(cases) if c[0] in ('truncation', 'mutation', 'ends-at-end', 'random')]
     moving += rng.sample(rest, min(len(rest), 6000 if T else 1500))
     moving.sort()
